@@ -221,10 +221,16 @@ func (e *DocumentError) pointerToTheErrorCharacter() string {
 	e.preparation()
 
 	content := e.file.Content()
+	if int(e.index) >= len(content) {
+		return "^"
+	}
 	begin := e.lineBeginning()
 	spaces := content[begin:].CountSpacesFromLeft()
 
 	i := int(e.index) - int(begin) - spaces
+	if i < 0 { // the index is inside the leading blanks of the line
+		i = 0
+	}
 	return strings.Repeat("-", i) + "^"
 }
 
